@@ -77,12 +77,14 @@ FACTORS = [
     ("packed", [None, 1]),
     ("m", [None, "0", "1", "10.5", "50"]),
     ("L", [None, "lbl", "sixteen-chars-lbl", "a-label-longer-than-sixteen"]),
-    ("r", [None, "1", "0"]),
+    ("r", [None, "1", "0", "rev0"]),
     ("d", [None, "tiny0", "tiny1", "std0"]),
+    ("prefill", [None, "a5"]),          # not an option: stale device content instead of zeros
 ]
 FACTOR_VALUES = dict(FACTORS)
 ALWAYS = ("t", "b", "size")          # factors that have no "not given" value
-RARE = {("r", "0"): 0.03}            # values that only ever lead to a refusal
+RARE = {("r", "0"): 0.03, ("r", "rev0"): 0.3}      # values that (nearly) always lead to a refusal
+PREFILL_MAX = 96 << 20
 
 
 def default_cfg():
@@ -152,6 +154,16 @@ def repair(cfg, rng, conf):
         if f(n) == "off":
             return False
         return n in base
+    if cfg["r"] == "rev0":
+        # revision 0: no features, no journal, 128-byte inodes
+        for n in FEATURE_NAMES:
+            cfg["f:" + n] = None
+        cfg.update({"t": "ext2", "C": None, "J": None, "G": None, "resize": None, "nbsb": None, "packed": None})
+        if cfg["I"] not in (None, 128):
+            cfg["I"] = None
+        if cfg["size"] == "metabg_boundary":
+            cfg["size"] = "desc_boundary"
+        return cfg
     if cfg["size"] == "metabg_boundary":
         cfg["f:meta_bg"] = "on"
     if f("extent") == "off" and will_have("64bit"):
@@ -307,6 +319,10 @@ class Want:
             pass
         if "metadata_csum" in feats and "uninit_bg" in feats:
             feats.discard("uninit_bg")
+        if cfg.get("r") == "rev0":
+            self.rev0 = True
+            feats.clear()
+            self.isize = 128
         self.backup_bgs = (0, 0)
         if "sparse_super2" in feats:
             nb = cfg.get("nbsb")
@@ -435,6 +451,8 @@ def finish_cfg(cfg, conf, rng):
             cfg["ino"] = "N1000"
         w = Want(cfg, conf, blocks)
     nbytes = blocks * cfg["b"]
+    if nbytes > PREFILL_MAX:
+        cfg["prefill"] = None
     if w.jmb and w.jmb * (1 << 20) > nbytes // 3:
         cfg["J"] = None
     if "has_journal" in w.feats and not cfg["J"] and nbytes >= (2 << 30):
@@ -494,12 +512,14 @@ def argv_for(cfg, mke2fs, path, treedir, noaction=False):
         e.append("root_owner" if cfg["owner"] == "self" else "root_owner=" + cfg["owner"])
     if cfg.get("packed"):
         e.append("packed_meta_blocks=1")
+    if cfg.get("r") == "rev0":
+        e.append("revision=0")
     a += ["-U", UUID, "-E", ",".join(e)]
     if cfg.get("m") is not None:
         a += ["-m", cfg["m"]]
     if cfg.get("L") is not None:
         a += ["-L", cfg["L"]]
-    if cfg.get("r") is not None:
+    if cfg.get("r") in ("0", "1"):
         a += ["-r", cfg["r"]]
     if cfg.get("d"):
         a += ["-d", os.path.join(treedir, cfg["d"])]
@@ -660,6 +680,8 @@ def check_geometry(img, cfg, conf, path, out):
             bad("cluster_size", "cluster ratio %d, requested %d" % (img.ratio, w.ratio))
     elif sb.s_log_cluster_size != sb.s_log_block_size:
         bad("cluster_size", "log cluster size %d without bigalloc" % sb.s_log_cluster_size)
+    if sb.s_rev_level != (0 if w.rev0 else 1):
+        bad("rev_level", "revision %d" % sb.s_rev_level)
     if cfg.get("I") and sb.s_inode_size != cfg["I"]:
         bad("inode_size", "inode size %d, requested %d" % (sb.s_inode_size, cfg["I"]))
     # ---- features
@@ -794,7 +816,7 @@ def check_geometry(img, cfg, conf, path, out):
     if abs(rb - pct * final / 100.0) > 2.0:
         bad("reserved_blocks-" + ("high" if rb > pct * final / 100.0 else "low"),
             "%d reserved blocks of %d (%.3f%%), -m %s" % (rb, final, 100.0 * rb / final, pct))
-    if cfg.get("owner") and not cfg.get("d"):
+    if cfg.get("owner"):
         if cfg["owner"] == "self":
             uid, gid = os.getuid(), os.getgid()
         else:
@@ -908,6 +930,13 @@ def make_device(path, cfg, fill=None):
         if fill is not None:
             f.write(fill(size))
         else:
+            if cfg.get("prefill") and size <= PREFILL_MAX + (2 << 20):
+                left = size
+                chunk = b"\xa5" * (1 << 20)
+                while left > 0:
+                    f.write(chunk[:min(left, len(chunk))])
+                    left -= len(chunk)
+                f.seek(0)
             if off:
                 f.write((OFFSET_FILL * (off // len(OFFSET_FILL) + 1))[:off])
             f.truncate(size)
@@ -1306,12 +1335,12 @@ def main(tier, seed, replay=None, scale=1.0):
             elif r["kind"] == "r" and r.get("same") is False:
                 pending.append((i, ("repro", None)))
         minimal = {}        # item index -> distinguishing string
-        MAXMIN, PER_TARGET = 48, 24
+        MAXMIN, PER_TARGET = 60, 5
         per = {}
         batch, rest = [], []
         for i, target in pending:
-            if per.get(target[0], 0) < PER_TARGET and len(batch) < MAXMIN:
-                per[target[0]] = per.get(target[0], 0) + 1
+            if per.get(target, 0) < PER_TARGET and len(batch) < MAXMIN:
+                per[target] = per.get(target, 0) + 1
                 batch.append((i, target))
             else:
                 rest.append((i, target))
@@ -1465,6 +1494,11 @@ def main(tier, seed, replay=None, scale=1.0):
                 seen.add(key)
                 rep.violation(key, "%s  [%s]" % (what, " ".join(case["argv"][1:])), replay=case)
         if not replay:
+            acc_pairs = set()
+            for it, r in zip(items, results):
+                if it[0] == "c" and r.get("rc") == 0 and not r.get("sig"):
+                    acc_pairs.update(pairs_of(it[2]))
+            stats["pairs_covered_by_accepted"] = len(acc_pairs)
             for k, v in stats.items():
                 rep.count(k, v)
             rep.extra["option_value_counts_attempted_accepted"] = optcount
